@@ -11,6 +11,7 @@ import AlgoVerif.Proofs.C14Scc
 import AlgoVerif.Proofs.C14Cert
 import AlgoVerif.Proofs.C14Dijkstra
 import AlgoVerif.Proofs.C14Prim
+import AlgoVerif.Props.C18
 /-!
 # C14 — property theorems
 
@@ -288,29 +289,48 @@ example : (C14_exM.minimumSpanningTree).map (fun m => (m.edges, m.weight)) =
     .ok ([⟨1, 2, 0⟩, ⟨0, 2, 0⟩, ⟨2, 3, -3⟩, ⟨4, 5, 1⟩, ⟨6, 4, 1⟩], -1) := by decide
 example : (C14_exM.minimumSpanningTree).map (mstCertificate C14_exM) = .ok true := by decide +kernel
 
-/-- what is proved about the weight: `Weight()` is the sum of the weights of `Edges()` (see the comment
-below for the full statement and what is missing) -/
-theorem C14_mst_minimum_weight_partial (m : MST) : m.weight = (m.edges.map (·.w)).sum := by
-  unfold MST.weight
-  have : ∀ (l : List Edge) (acc : Int), l.foldl (fun acc e => acc + e.w) acc = acc + (l.map (·.w)).sum := by
-    intro l
-    induction l with
-    | nil => intro acc; simp
-    | cons e r ih => intro acc; simp only [List.foldl_cons, List.map_cons, List.sum_cons]; rw [ih]; omega
-  rw [this]; simp
+/-- `NewWeightedUndirected(n, es…)`: every adjacency entry stores an edge joining its owner and its neighbour
+(`UWF`), and every edge is stored in the adjacency lists of both of its ends (`UStored`). -/
+theorem C14_build_weighted_undirected (n : Nat) (es : List EdgeIn) :
+    (buildUndirected n es).UWF ∧ (buildUndirected n es).UStored :=
+  ⟨buildUndirected_uwf n es, buildUndirected_ustored n es⟩
 
-/-
-**Not proved: minimum total weight** (the remaining conjunct of the property for `MinimumSpanningTree`).
+/-- **MinimumSpanningTree returns a spanning forest of minimum total weight** (any integer weights, also
+negative): `Edges()` is a spanning forest of the graph in the sense of `IsSpanningForest` (stored edges, no
+repetition, no cycle: removing an edge disconnects its ends; the ends of every graph edge are connected), and
+`Weight()` — the sum of their weights — is at most the weight of *every* spanning forest `F` of the graph.
+Proof: every edge Prim adds is a lightest stored edge between the vertices visited before its child and the
+rest (`ForestOK`, kept as an invariant of `prim`; uses `Delete` returning a least key), and the classical
+exchange argument (`cut_rule_optimal`, `Proofs/C14Mst.lean`: a forest that contains the first `i` chosen
+edges can be changed, without gaining weight, into one that also contains the next). -/
+theorem C14_mst_minimum_weight (g : Graph) (hg : g.WF) (hu : g.UWF) (hsym : g.Symmetric) (hst : g.UStored) :
+    ∃ m, g.minimumSpanningTree = .ok m ∧ IsSpanningForest g m.edges ∧ m.weight = wsum m.edges ∧
+      ∀ F, IsSpanningForest g F → m.weight ≤ wsum F := by
+  obtain ⟨m, h1, h2, h3⟩ := mst_minimum hg hu hsym hst
+  exact ⟨m, h1, h2, wsum_edges m, h3⟩
 
-Full statement:
-  theorem C14_mst_minimum_weight (g) (hg : g.WF) (hu : g.UWF) (hsym : g.Symmetric) (m) (hm : g.minimumSpanningTree = .ok m)
-      (F : List Edge)  -- any spanning forest of g (stored edges, acyclic, connecting exactly the components of g)
-      : m.weight ≤ (F.map (·.w)).sum
+example : C14_exM.UStored := (C14_build_weighted_undirected _ _).2
+-- a competitor: the spanning forest that uses the heavy parallel edge 0–1:4 weighs 4 more (3 against -1)
+example : wsum [⟨0, 1, 4⟩, ⟨1, 2, 0⟩, ⟨2, 3, -3⟩, ⟨4, 5, 1⟩, ⟨5, 6, 1⟩] = 3 := by decide
 
-What is missing: the exchange argument "cycle property (every graph edge is at least as heavy as every
-edge on the tree path between its ends) ⇒ minimum weight" and the proof that Prim's result has the cycle
-property (the heap part — `Delete` returns a least key — is proved in `Proofs/C14Heap.lean` and used for
-Dijkstra).  Evidence for this conjunct is translation validation: on every explored `mst` query the driver
-evaluates `mstCertificate` (spanning forest + cycle property + weight = sum) on the Model's result, and the
-harness compares the implementation's weight with an independent Kruskal.
--/
+/-! ## the containers behind DFSi, BFS, `To`, `PathTo`, `Cycle` -/
+
+/-- **Dependency on C18, made explicit.**  The Model of the traversals keeps the content of `list.Stack` /
+`list.Queue` as a plain list: `pushStack`/`pushQueue` and taking the head are literally the operations of the
+abstract stack and queue of `Spec/C18.lean`; and by `C18_stack_refines` / `C18_queue_refines` every history on
+the block-linked Model of `/repo/list/{stack,queue}.go` with the block size the graph package uses
+(`listNodeSize`, regenerated from the source) returns what the abstract sequence returns, never panicking or
+hanging.  So the only thing trusted here is that the traversals use the containers through
+`Push/Pop/IsEmpty` (`Enqueue/Dequeue/IsEmpty`) — which the correspondence run checks across block
+boundaries. -/
+theorem C14_containers_are_C18_spec :
+    (∀ (w : Nat) (l : List Nat), pushStack w l = C18.Spec.S.push l w) ∧
+    (∀ (w : Nat) (l : List Nat), pushQueue w l = C18.Spec.Q.enqueue l w) ∧
+    (∀ (v : Nat) (l : List Nat), C18.Spec.S.pop (v :: l) = (l, some v) ∧ C18.Spec.Q.dequeue (v :: l) = (l, some v)) ∧
+    (∀ (eq : Nat → Nat → Bool) (ops : List (C18.Op Nat)),
+      C18.Stack.run 0 eq (C18.Stack.new C14.listNodeSize) ops = (C18.Spec.S.run eq [] ops).map Outcome.ok) ∧
+    (∀ (eq : Nat → Nat → Bool) (ops : List (C18.Op Nat)),
+      C18.Queue.run 0 eq (C18.Queue.new C14.listNodeSize) ops = (C18.Spec.Q.run eq [] ops).map Outcome.ok) := by
+  have hB : 1 ≤ C14.listNodeSize := by decide
+  exact ⟨fun _ _ => rfl, fun _ _ => rfl, fun _ _ => ⟨rfl, rfl⟩,
+    fun eq ops => C18_stack_refines 0 eq _ hB ops, fun eq ops => C18_queue_refines 0 eq _ hB ops⟩
